@@ -27,17 +27,25 @@ import (
 
 // Recv is one frame received from the proxy.
 type Recv struct {
-	Header   frame.Header
-	WireBody []byte
-	Body     []byte // decompressed
-	Kind     string // ok, void, setks, prepared, schema, event, ready, supported, auth*, or an error kind
-	ErrCode  int
-	ErrMsg   string
-	Token    string
-	Node     string
-	Frame    *frame.Frame // decoded with the reference codec (nil if undecodable)
-	DecodeOK bool
-	At       time.Time
+	Header      frame.Header
+	WireBody    []byte
+	Body        []byte // decompressed
+	Kind        string // ok, void, setks, prepared, schema, event, ready, supported, auth*, or an error kind
+	ErrCode     int
+	ErrMsg      string
+	Token       string
+	Node        string
+	Frame       *frame.Frame // decoded with the reference codec (nil if undecodable)
+	DecodeOK    bool
+	At          time.Time
+	SetKeyspace string
+}
+
+func truncate(s string, n int) string {
+	if len(s) > n {
+		return s[:n]
+	}
+	return s
 }
 
 type Client struct {
@@ -58,6 +66,8 @@ type Client struct {
 	LocalAddr  string
 	CompName   string
 }
+
+var rawHeaderCodec = frame.NewRawCodec()
 
 var nodeRe = regexp.MustCompile(`127\.0\.\d+\.\d+`)
 
@@ -88,6 +98,12 @@ var errNames = map[int]string{
 	0x2400: "alreadyexists", 0x2500: "unprepared",
 }
 
+func (c *Client) sessTag() string {
+	c.mu.Lock()
+	defer c.mu.Unlock()
+	return fmt.Sprintf("%d|%s", int(c.Version), c.CompName)
+}
+
 func (c *Client) setCompression(name string) {
 	c.CompName = strings.ToLower(name)
 	switch strings.ToLower(name) {
@@ -102,7 +118,8 @@ func (c *Client) setCompression(name string) {
 
 func (c *Client) read() {
 	for {
-		raw, err := c.codec.DecodeRawFrame(c.nc)
+		// header decoding does not depend on the compression codec
+		raw, err := rawHeaderCodec.DecodeRawFrame(c.nc)
 		if err != nil {
 			c.mu.Lock()
 			c.closed = true
@@ -133,7 +150,8 @@ func (c *Client) read() {
 		}
 		classify(r)
 		c.emit("ClientRecv", "c", c.ID, "stream", int(r.Header.StreamId), "op", r.Header.OpCode.String(), "kind", r.Kind,
-			"t", r.Token, "node", r.Node, "ver", int(r.Header.Version), "h", Hash(r.Header.Flags, r.Header.OpCode, r.Body))
+			"t", r.Token, "node", r.Node, "ver", int(r.Header.Version), "h", Hash(r.Header.Flags, r.Header.OpCode, r.Body),
+			"msg", truncate(r.ErrMsg, 160), "setks", r.SetKeyspace)
 		c.mu.Lock()
 		c.recvd = append(c.recvd, r)
 		c.cond.Broadcast()
@@ -190,6 +208,7 @@ func classify(r *Recv) {
 				r.Kind = "void"
 			case *message.SetKeyspaceResult:
 				r.Kind = "setks"
+				r.SetKeyspace = r.Frame.Body.Message.(*message.SetKeyspaceResult).Keyspace
 			case *message.PreparedResult:
 				r.Kind = "prepared"
 			case *message.SchemaChangeResult:
@@ -226,7 +245,7 @@ func (c *Client) SendBytes(b []byte, stream int, op, tok, class string) error {
 	c.wmu.Lock()
 	defer c.wmu.Unlock()
 	c.emit("ClientSend", "c", c.ID, "caddr", c.LocalAddr, "stream", stream, "op", op, "t", tok, "class", class,
-		"sess", fmt.Sprintf("%d|%s", int(c.Version), c.CompName))
+		"sess", c.sessTag())
 	_, err := c.nc.Write(b)
 	return err
 }
@@ -310,7 +329,9 @@ func (c *Client) Close() {
 
 // Startup performs OPTIONS-less STARTUP with the given version and compression ("" = none).
 func (c *Client) Startup(version primitive.ProtocolVersion, compression string) error {
+	c.mu.Lock()
 	c.Version = version
+	c.mu.Unlock()
 	var st *message.Startup
 	if compression != "" {
 		st = message.NewStartup("COMPRESSION", compression)
